@@ -75,7 +75,9 @@ Rounds == 0..MaxRound
 
 \* ====================================================================== parties
 \* a party = a consensus.State + its block store, projected
-NewParty == [h |-> 1, cn |-> CN!InitNode, parts |-> {}, chain |-> << >>]
+\* lcpm: the blocks a peer has claimed +2/3 precommits for in the vote set that is now cs.LastCommit (the VoteSet object, with
+\* its peerMaj23 marks, moves from cs.Votes to cs.LastCommit when the height is decided)
+NewParty == [h |-> 1, cn |-> CN!InitNode, parts |-> {}, chain |-> << >>, lcpm |-> {}]
 
 \* environment inputs of a party (script elements; the Go driver executes the same records through
 \* handleMsg / handleTimeout of a real consensus.State)
@@ -97,7 +99,8 @@ Norm(x, c) ==
   THEN [h |-> x.h + 1,
         cn |-> [CN!InitNode EXCEPT !.lastCommit = c.lastCommit],
         parts |-> {},
-        chain |-> Append(x.chain, [v |-> c.decision, r |-> c.lastCommit.r, votes |-> CommitVotes(c.lastCommit.votes, c.decision)])]
+        chain |-> Append(x.chain, [v |-> c.decision, r |-> c.lastCommit.r, votes |-> CommitVotes(c.lastCommit.votes, c.decision)]),
+        lcpm |-> {q[2] : q \in x.cn.pc[c.lastCommit.r].pm}]
   ELSE [x EXCEPT !.cn = CN!ClearOut(c),
                  !.parts = IF c.partsHdr = Nil THEN {}
                            ELSE IF c.propBlock = c.partsHdr THEN PartIx
@@ -402,7 +405,8 @@ Step1(y, e) ==
       isVote == e.op \in {"vote", "strag"}
       \* EventVote fires for every vote the vote set ADDS: a first vote of the validator, or a conflicting one for a
       \* block a peer has claimed (VoteSet.addVote)
-      recorded(z) == IF e.op = "strag" THEN z.cn.lastCommit.votes[e.src] # None   \* (a replaced entry is not an added vote)
+      \* (for cs.LastCommit: a first vote, or a conflicting one for a claimed block; a merely replaced entry is not an added vote)
+      recorded(z) == IF e.op = "strag" THEN z.cn.lastCommit.votes[e.src] # None /\ ~(z.cn.lastCommit.votes[e.src] # e.v /\ e.v \in z.lcpm)
                      ELSE IF z.h = y.h THEN e.r \in z.cn.tracked /\ e.src \in CN!ByFor(VS(z, TOf(e.k), e.r), e.v)
                      ELSE z.cn.lastCommit.r = e.r /\ e.k = "precommit" /\ z.cn.lastCommit.votes[e.src] = e.v
       newVote == isVote /\ ~recorded(y) /\ recorded(y2)
@@ -489,7 +493,8 @@ HeaderTold(x, kh) == \E e \in kh : e.h = x.h /\ e.hdr = HdrOf(x) /\ (e.c \/ e.r 
 ProposalLack(n, x) == n.h = x.h /\ n.cn.prop # NoProp /\ n.cn.prop.r = RoundOf(x) /\ RoundOf(n) = RoundOf(x) /\ x.cn.prop = NoProp
 
 \* ---------------------------------------------------------------------- named gaps (what the real reactor never serves)
-AllGaps == {"G1_PeerAheadRound", "G2_CommitOtherRound", "G4_POLRoundUnknown", "G5_HeaderUnknown", "G6_POLShadowedByCatchupRound"}
+AllGaps == {"G1_PeerAheadRound", "G2_CommitOtherRound", "G3_LockedBlockNotServed", "G4_POLRoundUnknown", "G5_HeaderUnknown",
+            "G6_POLShadowedByCatchupRound"}
 \* G1 PeerAheadRound    same height, the peer's round is LATER than the node's: every attempt of gossipVotesForHeight is
 \*                      guarded by prs.Round <= rs.Round, so votes the node holds for the peer's round (round+1 vote sets,
 \*                      catch-up rounds) are not forwarded until the node itself reaches that round.
@@ -506,7 +511,13 @@ AllGaps == {"G1_PeerAheadRound", "G2_CommitOtherRound", "G4_POLRoundUnknown", "G
 \* G5 HeaderUnknown     same height: which part set the peer is collecting is known to the node only from a NewValidBlock of
 \*                      the peer or a Proposal exchanged with it for the peer's current round; a node in another round
 \*                      that holds parts of that very block does not send them.
-\* (G3: parts held only as LockedBlockParts / ValidBlockParts are never gossiped -- outside this projection, see DESIGN notes)
+\* G3 LockedBlockNotServed  gossipDataRoutine reads rs.ProposalBlockParts only: a block the node holds as LockedBlock / ValidBlock
+\*                      (LockedBlockParts / ValidBlockParts) is not gossiped to a peer collecting it unless it is also the
+\*                      node's current proposal block.  (Not part of Lacks -- "holds" there means ProposalBlockParts or the
+\*                      block store; listed so that the situations are counted.)
+LockedBlockItems(n, x) ==
+  IF x.h = n.h /\ HdrOf(x) # Nil /\ (n.cn.lockedV = HdrOf(x) \/ n.cn.validV = HdrOf(x))
+  THEN (PartIx \ x.parts) \ NodePartsOf(n, x.h, HdrOf(x)) ELSE {}
 GapClass(n, x, p, it) ==
   IF x.h # n.h THEN "none"
   ELSE IF RoundOf(x) > RoundOf(n) /\ it.r >= RoundOf(x) THEN "G1_PeerAheadRound"
@@ -529,6 +540,7 @@ GapItems(n, x, p, kh) ==
        {LackRec(GapClass(n, x, p, it), it.h, it.r, it.t, it.i, it.v) :
                          it \in {q \in VoteLacks(n, x) \cup ConflictLacks(n, x) : GapClass(n, x, p, q) # "none"}}
   \cup (IF x.h = n.h /\ ~HeaderTold(x, kh) THEN {LackRec("G5_HeaderUnknown", x.h, -1, 0, i, HdrOf(x)) : i \in PartLacks(n, x)} ELSE {})
+  \cup {LackRec("G3_LockedBlockNotServed", x.h, -1, 0, i, HdrOf(x)) : i \in LockedBlockItems(n, x)}
 
 \* +2/3 claims the node can make about slots the peer can use ("claims are exchanged"): each is re-sent by every
 \* iteration of queryMaj23Routine (the catch-up claim once gossipVotesRoutine has set CatchupCommitRound)
